@@ -49,7 +49,7 @@ struct Slot {
     call: Option<Call>,
 }
 
-const N_SLOTS: usize = 30;
+const N_SLOTS: usize = 34;
 /// The slot alphabet. `p` is a TID prefix unique to the block.
 fn slot(i: usize, p: &str) -> Slot {
     let t = |k: usize| format!("instr_{p}_{k}");
@@ -85,10 +85,15 @@ fn slot(i: usize, p: &str) -> Slot {
         26 => d(vec![assign(&t(0), r8("RDI"), e8("RBX"))]),
         27 => d(vec![store(&t(0), sp_off(16), e8("RSI")), assign(&t(1), r8("RSI"), cst(0, 8))]),
         28 => d(vec![load(&t(0), r8("RSI"), sp_off(16))]),
-        _ => c(vec![assign(&t(0), r8("RDI"), e8("RDX"))], Call::Internal),
+        29 => c(vec![assign(&t(0), r8("RDI"), e8("RDX"))], Call::Internal),
+        // in-place updates whose abstract result no longer refers to the old value of the register
+        30 => d(vec![assign(&t(0), r8("RDI"), bin(BinOpType::IntMult, e8("RDI"), e8("RSI")))]),
+        31 => d(vec![assign(&t(0), r8("RSI"), bin(BinOpType::IntRight, e8("RSI"), cst(3, 8)))]),
+        32 => d(vec![assign(&t(0), r8("RDX"), un(UnOpType::Int2Comp, e8("RDX")))]),
+        _ => d(vec![assign(&t(0), r8("RDI"), cast(CastOpType::IntZExt, 8, subpiece(0, 1, e8("RDI"))))]),
     }
 }
-const QUICK_SLOTS: [usize; 15] = [0, 1, 2, 5, 7, 8, 10, 11, 12, 13, 16, 20, 22, 23, 24];
+const QUICK_SLOTS: [usize; 18] = [0, 1, 2, 5, 7, 8, 10, 11, 12, 13, 16, 20, 22, 23, 24, 30, 32, 33];
 /// Alphabet of the 4-slot layer of the thorough tier.
 const THOROUGH_4SLOT: [usize; 18] = [0, 1, 2, 3, 5, 7, 8, 9, 10, 11, 13, 16, 19, 20, 22, 24, 26, 29];
 
